@@ -845,6 +845,14 @@ func (s *sim) onDeliver(p *simPkt, to int) {
 			s.lastARwnd[to] = v.advertisedReceiverWindowCredit
 			s.haveARwnd[to] = true
 			s.probeOversize[to] = false
+		case *chunkShutdown:
+			// RFC 9260 9.2: SHUTDOWN carries a cumulative TSN ack (no gap blocks, no window): the data
+			// sender `to` may count those TSNs as acknowledged; the last advertised a_rwnd stands
+			for tsn := range s.firstTx[to] {
+				if sna32LTE(tsn, v.cumulativeTSNAck) {
+					s.ackedByPeer[to][tsn] = true
+				}
+			}
 		case *chunkInit:
 			s.peerInitRwnd[to] = v.advertisedReceiverWindowCredit
 		case *chunkInitAck:
